@@ -98,6 +98,7 @@ def _fp_slice(zz: Any, asserts: list[Any]) -> tuple[list[Any], list[Any]] | None
 def _z3_worker(conn: Any) -> None:
     import z3 as zz
 
+    conn.send("ready")  # start-up (interpreter + z3 import) must not eat the first query's budget on a loaded box
     while True:
         try:
             msg = conn.recv()
@@ -160,6 +161,8 @@ class _Worker:
         child.close()
         self.task: Any = None
         self.deadline = 0.0
+        self.ready = False
+        self.born = time.time()
 
     def kill(self) -> None:
         try:
@@ -212,6 +215,17 @@ def _z3_pool(texts: dict[int, str], budgets: dict[int, float], jobs: int) -> dic
     try:
         while queue or active:
             for w in workers:
+                if not w.ready:
+                    if w.parent.poll():
+                        try:
+                            w.ready = w.parent.recv() == "ready"
+                        except EOFError:
+                            w.kill()
+                            w.spawn()
+                    elif time.time() - w.born > 60 or not w.proc.is_alive():
+                        w.kill()
+                        w.spawn()
+                    continue
                 if w.task is None and queue:
                     i = queue.pop()
                     w.task = i
@@ -251,6 +265,28 @@ def _z3_pool(texts: dict[int, str], budgets: dict[int, float], jobs: int) -> dic
     return out
 
 
+def _goal_under_pc_literals(ob: Obligation) -> Any:
+    """The goal with every quantifier-free conjunct of the path condition replaced by its truth value
+    (``c`` -> true, ``Not(a)`` -> ``a`` false) and simplified: equivalent to the goal under the path
+    condition, so `true` here is a proof (propositional consequences need no theory reasoning)."""
+    pairs: list[tuple[Any, Any]] = []
+    stack = list(ob.pc)
+    while stack:
+        c = stack.pop()
+        if z3.is_and(c):
+            stack.extend(c.children())
+        elif z3.is_not(c):
+            pairs.append((c.arg(0), z3.BoolVal(False)))
+        elif z3.is_bool(c) and not z3.is_quantifier(c) and not z3.is_true(c):
+            pairs.append((c, z3.BoolVal(True)))
+    if not pairs:
+        return ob.goal
+    try:
+        return z3.simplify(z3.substitute(ob.goal, *pairs))
+    except z3.Z3Exception:
+        return ob.goal
+
+
 def discharge(obs: list[Obligation], tier: str = "quick", jobs: int | None = None, both: bool = False) -> list[Verdict]:
     """Decide every obligation.  Phase 1: z3 with a short budget on everything.  Phase 2 (what is
     left): z3 with the full budget and cvc5 --strings-exp side by side; the first definitive answer
@@ -265,6 +301,9 @@ def discharge(obs: list[Obligation], tier: str = "quick", jobs: int | None = Non
         g = z3.simplify(ob.goal)
         if z3.is_true(g) and ob.expect == "unsat":
             verdicts[i] = Verdict(ob, "unsat", "simplify", 0.0)
+            continue
+        if ob.expect == "unsat" and z3.is_true(_goal_under_pc_literals(ob)):
+            verdicts[i] = Verdict(ob, "unsat", "simplify-pc", 0.0)
             continue
         texts[i] = to_smt2(ob)
         pending.append(i)
@@ -393,7 +432,13 @@ class Model:
             s = unescape_z3_string(self.term(v.t).as_string())
             return bytes(ord(c) & 0xFF for c in s)
         if isinstance(v, V.SFloat):
-            bv = self.term(z3.fpToIEEEBV(v.t))
+            t = self.term(v.t)
+            if z3.is_fp_value(t):
+                if t.isNaN():
+                    return float("nan")  # fp.to_ieee_bv(NaN) is unspecified: z3 leaves it unevaluated (model completion gives 0)
+                bv = z3.simplify(z3.fpToIEEEBV(t))
+            else:
+                bv = self.term(z3.fpToIEEEBV(v.t))
             return struct.unpack("<d", struct.pack("<Q", bv.as_long()))[0]
         if isinstance(v, V.SOpaque):
             return f"<{v.kind}:{self.term(v.t)}>"
